@@ -373,3 +373,74 @@ def e2e_all_lengths(r, hi, szxs):
                 out.append(e2e_line("b2" if d == "b1" else "b1", ln, (ln * 5 + s) % 250, (i + 1) % 2,
                                     7, s, 7, i % 2, i % 2, 0))
     return out
+
+
+def e2e_wide(r, n):
+    """the transfer matrix beyond plain GET/PUT with short tokens: RFC 8974 extended tokens (9..32
+    bytes, 13 = first length with an extension byte), downloads asked for by FETCH / POST with a
+    request payload, both delivery modes, CON/NON, with and without faults"""
+    out = []
+    for i in range(n):
+        s = r.choice([0, 1, 2, 3, 4])
+        c = chunk(s)
+        ln = r.randrange(2, 7) * c + r.choice([-1, 0, 1, r.randrange(-c + 1, c)])
+        d = r.choice(["b1", "b2", "b2"])
+        sched = "." if i % 3 else "".join(r.choice("....x2rh") for _ in range(r.randrange(1, 12)))
+        opts = []
+        if r.random() < 0.7:
+            opts.append("tok=%d" % r.choice([9, 12, 13, 13, 14, 20, 32]))
+        if d == "b2" and r.random() < 0.5:
+            opts.append("meth=%s" % r.choice(["fetch", "post"]))
+            opts.append("rq=%d" % r.choice([1, 5, 13, 40]))
+        if not opts:
+            opts.append("tok=13")
+        cli, srv, app = (s, 7, 7) if d == "b1" else (7, 7, s)
+        out.append(e2e_line(d, ln, r.randrange(250), r.randrange(2), cli, srv, app, r.randrange(2), 1, 0, sched)
+                   + " " + " ".join(opts))
+    return out
+
+
+def e2e_two_downloads(r, n):
+    """two overlapping GETs on one session to ONE resource that differ only in the Uri-Query (the
+    second has none, or ?v=2): the server keeps one stored body per (resource, query)"""
+    out = []
+    for i in range(n):
+        s = r.choice([0, 1, 2, 3])
+        c = chunk(s)
+        la = r.randrange(2, 7) * c + r.choice([-1, 0, 1, r.randrange(-c + 1, c)])
+        lb = r.randrange(2, 7) * c + r.choice([-1, 0, 1, r.randrange(-c + 1, c)])
+        sched = "." if i % 3 else "".join(r.choice(".....xh") for _ in range(r.randrange(1, 12)))
+        start = r.choice([0, 0, 2, 3, 4, 6])
+        opts = ["q2=%d" % r.choice([0, 0, 2])]
+        if r.random() < 0.6:
+            opts.append("nort=1")        # COAP_BLOCK_NO_PREEMPTIVE_RTAG: only the query tells them apart
+        if r.random() < 0.3:
+            opts.append("tok=%d" % r.choice([13, 20]))
+        out.append("e2e b22 %d %d %d 7 7 %d %d 1 0 0 %s %d %d %s" %
+                   (la, r.randrange(250), r.randrange(2), s, r.randrange(2), sched, lb, start, " ".join(opts)))
+    return out
+
+
+def peer_g2_cases(r, n):
+    """raw Block2 GETs into the real server: one resource, queries none / v=1 / v=2 / v=3 (one body
+    each), transfers interleaved block by block, restarted, continued without a stored body"""
+    out = []
+    for _ in range(n):
+        s = r.choice([0, 0, 1, 2])
+        c = chunk(s)
+        ln = r.randrange(2, 7) * c + r.choice([-1, 0, 1, r.randrange(-c + 1, c)])
+        nb = (ln + c - 1) // c
+        qs = r.sample(["-", "1", "2", "3"], r.choice([1, 2, 2, 3]))
+        pos = {q: 0 for q in qs}
+        items = []
+        for _ in range(r.randrange(2, 30)):
+            q = r.choice(qs)
+            x = r.random()
+            if x < 0.1:
+                pos[q] = 0                      # starts over
+            elif x < 0.15:
+                pos[q] = r.randrange(nb + 1)    # random access
+            items.append("%d/%d/%s" % (pos[q], s, q))
+            pos[q] = pos[q] + 1 if pos[q] + 1 < nb else 0
+        out.append("peer g2 %d %d %d %s" % (ln, r.randrange(250), r.choice([7, 7, s]), " ".join(items)))
+    return out
